@@ -57,6 +57,8 @@ func NewSys(meta Meta, seed int64, init any) (Sys, error) {
 		return newLtcredSys(meta, seed, init)
 	case "relaygen":
 		return newRelaygenSys(meta, seed, init)
+	case "codec":
+		return newCodecSys(meta, seed, init)
 	case "framer", "bindreply":
 		return newFramerSys(meta, seed, init)
 	}
